@@ -222,6 +222,33 @@ CHECKS['C09'] = (
     'generator; float tolerance rtol 1e-5.',
     'DESIGN.md section 6 C09')
 
+CHECKS['C11'] = (
+    'exhaustive enumeration of probe tuples (space mode): every k-tuple over a family of generated '
+    'probe directories, merged by the real Merger and compared with an independent stable merge',
+    'Bounded exhaustive exploration: every 1-, 2- and 3-tuple (4 thorough) over 6-7 probe records '
+    '(2-3 spikes on times {0,1,2} with ties inside and across probes, gapped template ids, curated '
+    'clusters with higher maxima, per-cluster TSVs in all/some/none) x id dtypes int32/uint32/int64, '
+    'plus a long-tie family (2 x 40 spikes on <= 3 times) where an unstable sort is observable. '
+    'Output files are read with np.load: times, amplitudes (spike identity, hence conservation and '
+    'tie order), constant per-probe id offsets with disjoint ranges, cluster_probes, renumbered TSVs, '
+    'the returned model, and SHA-1 of every input file.',
+    'One id dtype per merge; complete KiloSort directories; amplitudes distinct per spike.',
+    'DESIGN.md section 6 C11')
+CHECKS['C12'] = (
+    'exhaustive enumeration of probe tuples (space mode) over a family with different channel / '
+    'template counts, maps, geometries, index dtypes and optional matrices; block-by-block comparison '
+    'of the merged files with the inputs',
+    'Bounded exhaustive exploration: every 1-, 2- and 3-tuple (4 thorough) over 7 probe kinds (2-4 '
+    'channels, 2-3 templates, identity / permuted / sub-selected maps, two-column and single-column '
+    'geometries, int32 / uint32 index tables, matrices present or absent, a probe whose highest '
+    'template is unused): channel blocks and probe labels, x-translation with disjoint x-ranges, '
+    'template waveform on its own channel block at the id offset and zeros elsewhere, shifted index '
+    'tables, block-diagonal whitening / inverse / similarity, merged parameters, loadability. One '
+    'defect class is a recorded known finding (single-column probes are not kept apart).',
+    '>= 2 templates and channels per probe; index tables of equal width in all probes; matrices '
+    'compared only when present in all probes.',
+    'DESIGN.md section 6 C12')
+
 NOT_YET = {}
 
 ALL = ['C%02d' % i for i in range(1, 21)]
